@@ -61,6 +61,24 @@ def impl_breaker(thr, slp, delay, mx, losses):
     return " ".join(out)
 
 
+def breaker_oracle(thr, slp, delay, mx, ls, rendered):
+    """C18 on what the implementation reported: the back-off time is never shorter than the connect-error delay; two losses
+    within the threshold -> at least the configured sleep; losses further apart -> exactly the connect-error delay"""
+    why = []
+    toks = rendered.split(" ")
+    cur = min(delay, mx) if delay < mx else mx
+    for k in range(1, len(ls)):
+        within = (ls[k] - ls[k - 1]) < thr * 1000000
+        bt = int(toks[k + 1].split("/")[1])
+        if bt < cur:
+            why.append(f"back-off time {bt} is shorter than the connect-error delay min(delay, max_delay) = {cur} (breaker {'active' if within else 'inactive'})")
+        if within and bt < slp:
+            why.append(f"losses {ls[k-1]} and {ls[k]} us are within {thr}s but the back-off time is {bt} < {slp}")
+        if not within and bt != cur:
+            why.append(f"losses further apart than the threshold but back-off time {bt} != connect-error delay {cur}")
+    return why
+
+
 def impl_instances(k, mxs, ops):
     """k ConnectionManagers alive at once; ops = [(instance, 'f'|'r')]; after every op, every instance's
     (current_delay_sec, _get_back_off_time()) - each must follow its OWN history only"""
@@ -171,16 +189,8 @@ def run(res, tier, seed, widen=1):
         case = {"op": "breaker", "threshold": thr, "sleep": slp, "delay": delay, "max": mx, "losses": ls}
         if i != a:
             res.tie_break(case, i, a, "breaker")
-        # property: two losses within the threshold -> sleep time >= configured sleep; further apart -> no extra wait
-        toks = i.split(" ")
-        cur = min(delay, mx) if delay < mx else mx
-        for k in range(1, len(ls)):
-            within = (ls[k] - ls[k - 1]) < thr * 1000000
-            bt = int(toks[k + 1].split("/")[1])
-            if within and bt < slp:
-                res.prop_failure(case, f"losses {ls[k-1]} and {ls[k]} us are within {thr}s but the back-off time is {bt} < {slp}", "breaker")
-            if not within and bt != cur:
-                res.prop_failure(case, f"losses further apart than the threshold but back-off time {bt} != connect-error delay {cur}", "breaker")
+        for why in breaker_oracle(thr, slp, delay, mx, ls, i):
+            res.prop_failure(case, why, "breaker")
         res.nontriv(tuple(ls) + (thr, slp, delay, mx))
     res.count("breaker", len(bcases))
     res.sample({"backoff": cases[len(cases) // 2], "breaker": bcases[0]})
@@ -210,7 +220,11 @@ def replay(payload, res):
         ok = out[1:] == spec and out[0] == 0
         print("delays", out, "spec", spec)
     else:
-        print(impl_breaker(c["threshold"], c["sleep"], c["delay"], c["max"], c["losses"]))
-        ok = True
+        r = impl_breaker(c["threshold"], c["sleep"], c["delay"], c["max"], c["losses"])
+        print(r)
+        why = breaker_oracle(c["threshold"], c["sleep"], c["delay"], c["max"], c["losses"], r)
+        for w in why:
+            print("REPLAY property failure:", w)
+        ok = not why
     print("REPLAY", "passes" if ok else "fails")
     return 0 if ok else 1
